@@ -133,6 +133,8 @@ struct Meas {
     tokens: u64,
     w: u64,
     oc: u64,
+    pp: u64,
+    ok: bool, // syntactically accepted: the passes after the packrat parser ran to the end
     cpu_ms: f64,
     capped: bool,
     panicked: Option<String>,
@@ -147,23 +149,35 @@ fn measure(src: &str, n: usize) -> Meas {
     let mut capped = false;
     let mut panicked = None;
     let mut oc = 0;
+    let mut pp = 0;
+    let mut ok = false;
     for _ in 0..2 {
         verif_hooks::reset();
         verif_hooks::set_parse_calls_cap(cap);
         verif_hooks::set_order_check_calls_cap(cap);
+        verif_hooks::set_post_parse_calls_cap(cap);
         let t0 = thread_cpu_ms();
-        let r = guard(|| {
-            if let Ok(ts) = tokenize(None, src) {
-                let _ = parse(None, src, &ts[..], &[]);
-            }
+        // true = the text is a sentence: only scoping / definition-order complaints, if any
+        let r = guard(|| match tokenize(None, src) {
+            Ok(ts) => match parse(None, src, &ts[..], &[]) {
+                Ok(_) => true,
+                Err(es) => es.iter().all(|e| {
+                    let m = e.to_string();
+                    m.contains("not in scope") || m.contains("already exists") || m.contains("will not be available in time")
+                }),
+            },
+            Err(_) => false,
         });
         let dt = thread_cpu_ms() - t0;
         w = verif_hooks::snapshot().parse_calls;
         oc = verif_hooks::snapshot().order_check_calls;
+        pp = verif_hooks::snapshot().post_parse_calls;
+        verif_hooks::set_post_parse_calls_cap(0);
         verif_hooks::set_parse_calls_cap(0);
         verif_hooks::set_order_check_calls_cap(0);
+        ok = matches!(r, Ok(true));
         if let Err(p) = r {
-            if p.contains("parse call cap") || p.contains("check call cap") {
+            if p.contains("parse call cap") || p.contains("check call cap") || p.contains("pass call cap") {
                 capped = true;
             } else {
                 panicked = Some(p);
@@ -172,7 +186,7 @@ fn measure(src: &str, n: usize) -> Meas {
         }
         best = best.min(dt);
     }
-    Meas { n, tokens, w, oc, cpu_ms: if best == f64::MAX { 0.0 } else { best }, capped, panicked }
+    Meas { n, tokens, w, oc, pp, ok, cpu_ms: if best == f64::MAX { 0.0 } else { best }, capped, panicked }
 }
 
 fn variants(text: &str) -> Vec<(&'static str, String)> {
@@ -186,6 +200,76 @@ fn variants(text: &str) -> Vec<(&'static str, String)> {
     vec![("well-formed", text.to_owned()), ("cut-1/3", cut(1)), ("cut-2/3", cut(2))]
 }
 
+
+
+// ---- nested templates ----
+// One-hole contexts over the whole expression grammar; a template is one context or the
+// composition of two, and its family member of depth k is the template applied k times to a leaf.
+// `#` in a context is replaced by the nesting level, so binders do not clash.
+pub const CONTEXTS: [&str; 36] = [
+    "(@)",
+    "f (@) y",
+    "f (@)",
+    "(@) y",
+    "f y (@)",
+    "f (@) (y)",
+    "1 * (@) / 2",
+    "(@) * 2",
+    "2 / (@)",
+    "1 * (@) / (2)",
+    "1 + (@) - 2",
+    "(@) + 1",
+    "1 - (@)",
+    "1 + x * (@) + (1)",
+    "1 - (@) - (2)",
+    "- (@)",
+    "(@) < 1",
+    "1 == (@)",
+    "if @ then 1 else 2",
+    "if true then @ else 2",
+    "if true then 1 else @",
+    "(x# : int) => @",
+    "x# => @",
+    "{x# : int} => @",
+    "(x# : @) => 1",
+    "(x# : int) -> @",
+    "(@) -> int",
+    "int -> @",
+    "a# = @; a#",
+    "a# = (@); a#",
+    "a# : int = @; a#",
+    "a# : (@) = 1; a#",
+    "(a# = 1; @)",
+    "f (a# = @; a#)",
+    "f (@",
+    "@) y",
+];
+
+pub fn template_count(tier: Tier) -> u64 {
+    let n = CONTEXTS.len() as u64;
+    tier.pick(n + 400, n + n * n)
+}
+
+// singles first; then pairs: all of them in order (thorough) or a seed-dependent sample (quick)
+fn template(tier: Tier, i: u64, seed: u64) -> (String, Vec<&'static str>) {
+    let n = CONTEXTS.len() as u64;
+    if i < n {
+        return (CONTEXTS[i as usize].to_owned(), vec![CONTEXTS[i as usize]]);
+    }
+    let j = tier.pick(crate::util::Rng::for_case(seed, 17, i - n).below(n * n), i - n);
+    let (a, b) = (CONTEXTS[(j / n) as usize], CONTEXTS[(j % n) as usize]);
+    (format!("{a} o {b}"), vec![a, b])
+}
+
+fn nest(ctxs: &[&str], depth: usize) -> String {
+    let mut s = String::from("1");
+    for level in 0..depth {
+        for c in ctxs.iter().rev() {
+            s = c.replace('#', &level.to_string()).replace('@', &s);
+        }
+    }
+    s
+}
 
 // ---- instruction counts (valgrind cachegrind, --cache-sim=no) ----
 // CPU time on this machine depends on what else is running (cache and memory-bus contention made
@@ -202,6 +286,7 @@ pub fn parse_only(path: &str) -> i32 {
         verif_hooks::reset();
         verif_hooks::set_parse_calls_cap(cap);
         verif_hooks::set_order_check_calls_cap(cap);
+        verif_hooks::set_post_parse_calls_cap(cap);
         let ok = match tokenize(None, &src) {
             Ok(ts) => parse(None, &src, &ts[..], &[]).is_ok(),
             Err(_) => false,
@@ -290,6 +375,53 @@ fn exponent(y1: f64, y0: f64, t1: u64, t0: u64) -> f64 {
 }
 
 impl C17P {
+    fn template_case(&self, ctx: &mut Ctx, idx: u64) {
+        let (name, ctxs) = template(ctx.tier, idx, ctx.seed);
+        let max_depth = ctx.tier.pick(32usize, 48) / ctxs.len();
+        let mut prev: Option<Meas> = None;
+        let mut depth = 4 / ctxs.len().min(2);
+        let step = depth;
+        while depth <= max_depth {
+            let text = nest(&ctxs, depth);
+            let m = measure(&text, depth);
+            ctx.eval();
+            if m.tokens >= 32 {
+                ctx.nontrivial(hash_str(&format!("tpl/{name}/{depth}")));
+            }
+            ctx.max("templates_max_tokens", m.tokens);
+            ctx.max("templates_max_parse_calls", m.w);
+            ctx.max("templates_max_post_parse_calls", m.pp);
+            let detail = |m: &Meas| Json::obj().set("template", Json::s(&name)).set("depth", Json::Int(m.n as i64)).set("tokens", Json::Int(m.tokens as i64)).set("parse_calls", Json::Int(m.w as i64)).set("order_check_calls", Json::Int(m.oc as i64)).set("post_parse_calls", Json::Int(m.pp as i64)).set("input", Json::s(&clip(&text, 400)));
+            if m.panicked.is_some() {
+                ctx.inconclusive("panic-during-measurement");
+                break;
+            }
+            if m.capped {
+                ctx.violation("work-cap-exceeded:nested-template", &format!("template `{name}` nested {depth} times ({} tokens): more than 200*(tokens+2)^2+50000 invocations of the parse functions, of the definition-order check or of the post-parse passes", m.tokens), detail(&m));
+                break;
+            }
+            if let Some(p) = &prev {
+                if p.tokens >= 40 {
+                    for (what, a, b) in [("parse-function", p.w, m.w), ("post-parse pass", p.pp, m.pp), ("definition-order check", p.oc, m.oc)] {
+                        if what != "parse-function" && p.ok != m.ok {
+                            continue;
+                        }
+                        if a >= 200 && b > 0 {
+                            let e = exponent(b as f64, a as f64, m.tokens, p.tokens);
+                            ctx.max("templates_max_exponent_x100", (e * 100.0).max(0.0) as u64);
+                            if e > 2.5 {
+                                ctx.violation("work-superquadratic:nested-template", &format!("template `{name}`: {what} invocations grow with local exponent {e:.2} between depth {} ({a}) and depth {depth} ({b})", p.n), detail(&m));
+                                return;
+                            }
+                        }
+                    }
+                }
+            }
+            prev = Some(m);
+            depth += step;
+        }
+        ctx.count("templates-measured");
+    }
     fn ir_case(&self, ctx: &mut Ctx, idx: u64) {
         let nforms = ctx.tier.pick(1u64, 3);
         let fam = FAMILIES[(idx / nforms) as usize];
@@ -370,7 +502,7 @@ impl Prop for C17P {
     }
     fn plan(&self, tier: Tier, _seed: u64) -> Plan {
         let mut p = Plan::new(
-            vec![sec("families", FAMILIES.len() as u64 * 3), sec("instruction-counts", FAMILIES.len() as u64 * tier.pick(1, 3))],
+            vec![sec("families", FAMILIES.len() as u64 * 3), sec("instruction-counts", FAMILIES.len() as u64 * tier.pick(1, 3)), sec("nested-templates", template_count(tier))],
             "34 input families (nesting, chains, definition sequences, conditionals, malformed and junk-laden variants) x 3 forms (well-formed, truncated at 1/3 and at 2/3). Section families: sizes n = 16,32,...,2048 (quick) / 4096 (thorough), in-process; per size the parse-function invocation count W and the definition-order check invocation count (hook counters) and the thread CPU time are recorded; violation = W exceeds 200*(tokens+2)^2+50000 (cap, aborts the parse) or the local exponent log2(W(2n)/W(n))/log2(tokens ratio) exceeds 2.5 for tokens>=100 (same for the order-check count). Section instruction-counts: `gv parse-only` (tokenize+parse of one file) is run under valgrind cachegrind --cache-sim=no for n = 64,...,512 (quick, well-formed form) / 2048 (thorough, all forms) and the guest instruction count, net of the start-up baseline, is the time measure; violation = local exponent above 2.5 where the smaller run has >=100 tokens and >=2e6 instructions. A CPU-time exponent above 2.8 (both times >=300 ms) in the in-process section is only a trigger: the two inputs are re-measured by instruction count and the violation is raised if that exponent exceeds 2.5 too; non-trivial = distinct (family, form, size) input with at least 64 tokens",
         );
         p.assumptions = vec![
@@ -385,6 +517,9 @@ impl Prop for C17P {
     fn run_case(&self, ctx: &mut Ctx, section: &str, idx: u64) {
         if section == "instruction-counts" {
             return self.ir_case(ctx, idx);
+        }
+        if section == "nested-templates" {
+            return self.template_case(ctx, idx);
         }
         let fam = FAMILIES[(idx / 3) as usize];
         let form = (idx % 3) as usize;
@@ -403,10 +538,11 @@ impl Prop for C17P {
             ctx.max("max_tokens", m.tokens);
             ctx.max("max_parse_calls", m.w);
             ctx.max("max_order_check_calls", m.oc);
+            ctx.max("max_post_parse_calls", m.pp);
             if m.tokens > 0 {
                 ctx.max("max_parse_calls_per_token_x100", m.w * 100 / m.tokens);
             }
-            let detail = |m: &Meas| Json::obj().set("family", Json::s(fam)).set("form", Json::s(form_name)).set("n", Json::Int(m.n as i64)).set("tokens", Json::Int(m.tokens as i64)).set("parse_calls", Json::Int(m.w as i64)).set("order_check_calls", Json::Int(m.oc as i64)).set("cpu_ms", Json::Num(m.cpu_ms)).set("input_head", Json::s(&clip(&text, 120)));
+            let detail = |m: &Meas| Json::obj().set("family", Json::s(fam)).set("form", Json::s(form_name)).set("n", Json::Int(m.n as i64)).set("tokens", Json::Int(m.tokens as i64)).set("parse_calls", Json::Int(m.w as i64)).set("order_check_calls", Json::Int(m.oc as i64)).set("post_parse_calls", Json::Int(m.pp as i64)).set("cpu_ms", Json::Num(m.cpu_ms)).set("input_head", Json::s(&clip(&text, 120)));
             if let Some(p) = &m.panicked {
                 // a crash is C14's business; here the run tells us nothing about growth
                 ctx.inconclusive("panic-during-measurement");
@@ -414,7 +550,7 @@ impl Prop for C17P {
                 break;
             }
             if m.capped {
-                ctx.violation("parse-work-cap-exceeded", &format!("family {fam} ({form_name}) at n={n}: more than 200*(tokens+2)^2+50000 parse-function (or definition-order check) invocations for {} tokens", m.tokens), detail(&m));
+                ctx.violation("parse-work-cap-exceeded", &format!("family {fam} ({form_name}) at n={n}: more than 200*(tokens+2)^2+50000 parse-function (or definition-order check, or post-parse pass) invocations for {} tokens", m.tokens), detail(&m));
                 break;
             }
             if let Some(p) = &prev {
@@ -423,6 +559,15 @@ impl Prop for C17P {
                     ctx.max("max_order_check_exponent_x100", (e * 100.0).max(0.0) as u64);
                     if e > 2.5 {
                         ctx.violation("order-check-work-superquadratic", &format!("family {fam} ({form_name}): definition-order check invocations grow with local exponent {e:.2} between n={} and n={n}", p.n), detail(&m));
+                        break;
+                    }
+                }
+                // the passes after the packrat parser stop at the first failing stage: compare like with like
+                if p.pp > 1000 && m.pp > 0 && p.tokens >= 100 && p.ok == m.ok {
+                    let e = exponent(m.pp as f64, p.pp as f64, m.tokens, p.tokens);
+                    ctx.max("max_post_parse_exponent_x100", (e * 100.0).max(0.0) as u64);
+                    if e > 2.5 {
+                        ctx.violation("post-parse-work-superquadratic", &format!("family {fam} ({form_name}): invocations of the post-parse passes (error collection, re-association, resolution, definition traversal) grow with local exponent {e:.2} between n={} and n={n}", p.n), detail(&m));
                         break;
                     }
                 }
